@@ -546,7 +546,7 @@ fn is_breakable_container(term: &Term) -> bool {
 fn term_doc(trivia: &Trivia, term: &Term) -> Doc {
     match term {
         Term::Tuple(tuple) => tuple_doc(trivia, tuple),
-        Term::String(style, segments) => string_term_doc(trivia, *style, segments),
+        Term::String(style, segments, _) => string_term_doc(trivia, *style, segments),
         Term::Block(expression) => block_doc(trivia, expression),
         Term::Function(function) => function_doc(trivia, function),
         Term::Spawn(inner, _) => spawn_doc(trivia, inner),
@@ -987,8 +987,13 @@ impl Trivia {
     /// Recover trivia from `source` and attach each item to an AST node: a leading comment/blank to
     /// the nearest following node, a trailing comment to the node whose text it follows.
     fn collect(program: &Program, source: &str) -> Trivia {
-        let mut anchors = Vec::new();
-        collect_anchors(program, &mut anchors);
+        let mut sites = Sites::default();
+        collect_anchors(program, &mut sites);
+        let Sites {
+            mut anchors,
+            mut strings,
+        } = sites;
+        strings.sort_unstable();
         // Index the anchors for O(log n) lookups per trivium: by start (to find the nearest node
         // *after* a leading comment) and by end (the nearest node *before* a trailing comment).
         anchors.sort_unstable_by_key(|anchor| anchor.start);
@@ -1008,7 +1013,7 @@ impl Trivia {
             let index = by_end.partition_point(|&(end, _)| end <= offset);
             index.checked_sub(1).map(|i| by_end[i].1)
         };
-        for item in scan_trivia(source) {
+        for item in scan_trivia(source, &strings) {
             match item {
                 Scanned::Blank(offset) => match following(offset) {
                     Some(anchor) => leading.entry(anchor).or_default().push(TriviaItem::Blank),
@@ -1127,9 +1132,15 @@ fn trivia_doc(items: &[TriviaItem]) -> Doc {
 /// Scan `source` for line comments and blank lines in source order, marking a comment as `trailing`
 /// when code precedes it on its line. String-aware so a `//` or blank line inside a `"…"` literal is
 /// not mistaken for trivia.
-fn scan_trivia(source: &str) -> Vec<Scanned> {
+///
+/// `strings` holds the extent of every string literal *term* (sorted): those are stepped over whole,
+/// because only the parser can tell what a quote or a `//` inside an interpolation hole is (a string
+/// nested in a hole would otherwise flip the quote tracking below). The quote tracking remains for
+/// string *patterns*, which have no holes.
+fn scan_trivia(source: &str, strings: &[(usize, usize)]) -> Vec<Scanned> {
     let mut out = Vec::new();
     let mut chars = source.char_indices().peekable();
+    let mut next_string = 0usize;
     let mut in_string = false;
     // Inside a `"""` literal: only an (unescaped) `"""` ends it, a lone `"` is content.
     let mut in_multiline = false;
@@ -1159,6 +1170,18 @@ fn scan_trivia(source: &str) -> Vec<Scanned> {
             } else {
                 line_blank = false;
             }
+            continue;
+        }
+        // A string literal term starts here: step over it.
+        while next_string < strings.len() && strings[next_string].0 < index {
+            next_string += 1;
+        }
+        if next_string < strings.len() && strings[next_string].0 == index {
+            let end = strings[next_string].1;
+            while chars.peek().is_some_and(|&(next, _)| next < end) {
+                chars.next();
+            }
+            line_blank = false;
             continue;
         }
         match c {
@@ -1205,7 +1228,15 @@ fn scan_trivia(source: &str) -> Vec<Scanned> {
 /// Collect every node trivia can attach to: type-alias statements, the chains of a sequence, and
 /// tuple fields. Mirrors where [`sequence_doc`]/[`field_doc`]/[`statement_doc`] emit trivia, so
 /// every attached item has exactly one emission site.
-fn collect_anchors(program: &Program, out: &mut Vec<Anchor>) {
+/// What [`collect_anchors`] finds: the nodes trivia can attach to, and the extent of every string
+/// literal term (outermost ones only — a literal nested in a hole lies inside its host's extent).
+#[derive(Default)]
+struct Sites {
+    anchors: Vec<Anchor>,
+    strings: Vec<(usize, usize)>,
+}
+
+fn collect_anchors(program: &Program, out: &mut Sites) {
     for statement in &program.statements {
         match statement {
             Statement::TypeAlias { name_span, .. } => push_anchor(*name_span, out),
@@ -1214,16 +1245,16 @@ fn collect_anchors(program: &Program, out: &mut Vec<Anchor>) {
     }
 }
 
-fn push_anchor(span: Spanned, out: &mut Vec<Anchor>) {
+fn push_anchor(span: Spanned, out: &mut Sites) {
     if let Some(span) = span.get() {
-        out.push(Anchor {
+        out.anchors.push(Anchor {
             start: span.offset,
             end: span.offset + span.length,
         });
     }
 }
 
-fn visit_sequence(sequence: &Sequence, out: &mut Vec<Anchor>) {
+fn visit_sequence(sequence: &Sequence, out: &mut Sites) {
     for chain in &sequence.chains {
         push_anchor(chain.span, out);
         visit_chain(chain, out);
@@ -1232,13 +1263,13 @@ fn visit_sequence(sequence: &Sequence, out: &mut Vec<Anchor>) {
 
 /// Recurse into a chain's terms without making the chain itself an anchor (used for select sources
 /// and tuple-field chains, which are not emitted by `sequence_doc`).
-fn visit_chain(chain: &Chain, out: &mut Vec<Anchor>) {
+fn visit_chain(chain: &Chain, out: &mut Sites) {
     for term in &chain.terms {
         visit_term(term, out);
     }
 }
 
-fn visit_term(term: &Term, out: &mut Vec<Anchor>) {
+fn visit_term(term: &Term, out: &mut Sites) {
     match term {
         Term::Tuple(tuple) => {
             for field in &tuple.fields {
@@ -1260,11 +1291,18 @@ fn visit_term(term: &Term, out: &mut Vec<Anchor>) {
                 visit_chain(chain, out);
             }
         }
+        // Not descended into: holes are rendered flat, and the spans inside a multi-line string's
+        // holes are relative to the string.
+        Term::String(_, _, span) => {
+            if let Some(span) = span.get() {
+                out.strings.push((span.offset, span.offset + span.length));
+            }
+        }
         _ => {}
     }
 }
 
-fn visit_expression(expression: &Expression, out: &mut Vec<Anchor>) {
+fn visit_expression(expression: &Expression, out: &mut Sites) {
     for branch in &expression.branches {
         visit_sequence(&branch.condition, out);
         if let Some(consequence) = &branch.consequence {
